@@ -179,12 +179,13 @@ class Ctx:
         if bad.any():
             idx = np.unravel_index(int(np.argmax(bad)), bad.shape) if bad.ndim else ()
             w = dict(witness or {})
+            tol_here = float(np.broadcast_to(np.asarray(tol, dtype=np.float64), d.shape)[idx])
             w.update({"index": [int(i) for i in idx], "got": jsonable(got[idx]),
-                      "want": jsonable(want[idx]), "tol": float(np.max(tol)),
+                      "want": jsonable(want[idx]), "tol": tol_here,
                       "max_abs_err": err})
             nnan = int(np.isnan(d).sum())
-            self.fail(mechanism, "%s: |got-want| = %.3g > tol %.3g%s" % (
-                name, float(d[idx]) if not np.isnan(d[idx]) else float("nan"), float(np.max(tol)),
+            self.fail(mechanism, "%s: |got-want| = %.3g > tol %.3g at %s%s" % (
+                name, float(d[idx]) if not np.isnan(d[idx]) else float("nan"), tol_here, list(w["index"]),
                 " (%d non-comparable NaN entries)" % nnan if nnan else ""), w)
             return False
         return True
